@@ -4,6 +4,8 @@ package main
 // trees and rotated-segment metadata).  Bootstrap = /repo/pkg/e2etests/metrics_e2e_test.go initTestConfig.
 // stdin: line protocol
 //   dp <hex of OTSDB json>          writer.AddTimeSeriesEntryToInMemBuf(json, SIGNAL_METRICS_OTSDB, 0)
+//   rw <hexname> <ts> <16 hex digits> <k=hexv,…>   Prometheus remote write of ONE sample: prompb.WriteRequest → protobuf →
+//                                   snappy → promingest.HandlePutMetrics (the body of the /api/v1/write handler); counts as a dp
 //   blockrotate                     one iteration of the engine's timeBasedMetricsFlush: the open block of every
 //                                   metrics segment is written to its TSO/TSG files, the segment stays open
 //   rotate                          forced block+segment rotation of every metrics segment (CheckAndRotate(true)),
@@ -27,7 +29,9 @@ import (
 	"strconv"
 	"strings"
 
+	"github.com/golang/snappy"
 	"github.com/siglens/siglens/pkg/config"
+	promingest "github.com/siglens/siglens/pkg/integrations/prometheus/ingest"
 	"github.com/siglens/siglens/pkg/integrations/prometheus/promql"
 	"github.com/siglens/siglens/pkg/segment"
 	"github.com/siglens/siglens/pkg/segment/memory/limit"
@@ -97,6 +101,38 @@ func mWorkerMain() {
 				emit(map[string]interface{}{"ingesterr": msg, "dp": ndp})
 			}
 			ndp++
+		case "rw":
+			if len(f) != 5 {
+				fmt.Fprintln(os.Stderr, "bad rw")
+				os.RemoveAll(dir)
+				os.Exit(4)
+			}
+			nb, e1 := hex.DecodeString(f[1])
+			ts, e2 := strconv.ParseInt(f[2], 10, 64)
+			bits, e3 := strconv.ParseUint(f[3], 16, 64)
+			if e1 != nil || e2 != nil || e3 != nil {
+				fmt.Fprintln(os.Stderr, "bad rw")
+				os.RemoveAll(dir)
+				os.Exit(4)
+			}
+			lbls := [][2]string{{"__name__", string(nb)}}
+			if f[4] != "-" {
+				for _, kv := range strings.Split(f[4], ",") {
+					p := strings.SplitN(kv, "=", 2)
+					vb, err := hex.DecodeString(p[len(p)-1])
+					if len(p) != 2 || err != nil {
+						fmt.Fprintln(os.Stderr, "bad rw label")
+						os.RemoveAll(dir)
+						os.Exit(4)
+					}
+					lbls = append(lbls, [2]string{p[0], string(vb)})
+				}
+			}
+			okN, failN, err := promingest.HandlePutMetrics(snappy.Encode(nil, mRemoteWriteBytes(lbls, bits, ts*1000)), 0)
+			if err != nil || okN != 1 || failN != 0 {
+				emit(map[string]interface{}{"ingesterr": fmt.Sprintf("remote write: success=%d failed=%d err=%v", okN, failN, err), "dp": ndp})
+			}
+			ndp++
 		case "blockrotate":
 			if _, err := metrics.VerifRotateBlocks(); err != nil {
 				emit(map[string]interface{}{"roterr": err.Error()})
@@ -152,6 +188,40 @@ func mWorkerMain() {
 			emit(res)
 		}
 	}
+}
+
+// prometheus.WriteRequest{timeseries: [TimeSeries{labels: [Label{name, value}…], samples: [Sample{value, timestamp}]}]} in
+// protobuf wire format, every field written explicitly (the generated gogo marshaller drops a sample value of -0 as
+// "default"; a conforming proto3 encoder sends it)
+func mRemoteWriteBytes(labels [][2]string, valueBits uint64, tsMillis int64) []byte {
+	varint := func(b []byte, v uint64) []byte {
+		for v >= 0x80 {
+			b = append(b, byte(v)|0x80)
+			v >>= 7
+		}
+		return append(b, byte(v))
+	}
+	lenField := func(b []byte, field int, payload []byte) []byte {
+		b = varint(b, uint64(field<<3|2))
+		b = varint(b, uint64(len(payload)))
+		return append(b, payload...)
+	}
+	var ts []byte
+	for _, l := range labels {
+		var lb []byte
+		lb = lenField(lb, 1, []byte(l[0]))
+		lb = lenField(lb, 2, []byte(l[1]))
+		ts = lenField(ts, 1, lb)
+	}
+	var sm []byte
+	sm = varint(sm, 1<<3|1) // value: fixed64
+	for i := 0; i < 8; i++ {
+		sm = append(sm, byte(valueBits>>(8*i)))
+	}
+	sm = varint(sm, 2<<3|0) // timestamp: varint
+	sm = varint(sm, uint64(tsMillis))
+	ts = lenField(ts, 2, sm)
+	return lenField(nil, 1, ts)
 }
 
 func init() { registerWorker("mworker", mWorkerMain) }
